@@ -134,14 +134,14 @@ CLAIMS = {
     "C20": _c("MC_Hist: HavocScratch overwrites every stale per-line field at line boundaries; executions: line sequences in all orders on objects pre-filled with 0x00/0x55/0xA5/0xFF, fed in one piece or line by line; predictions are per line, so agreement is history independence; newline style from the line's CR."),
 }
 
-PROPS["C03"]["families"] = [GENERAL_S, fam("fam_bounds", 40, 800), fam("fam_buf", 20, 400), fam("fam_num", 20, 400), fam("fam_lanes_exact", 12, 200)]
+PROPS["C03"]["families"] = [GENERAL_S, fam("fam_geom", 6, 30), fam("fam_bounds", 40, 800), fam("fam_buf", 20, 400), fam("fam_num", 20, 400), fam("fam_lanes_exact", 12, 200)]
 PROPS["C05"]["families"] = [GENERAL_S, fam("fam_buf", 60, 1500), fam("fam_bytes", 16, 64)]
 PROPS["C06"]["families"] = [GENERAL_S, fam("fam_bounds", 50, 1000), fam("fam_textfit", 32, 800), fam("fam_codes", 18, 300)]
 PROPS["C07"]["families"] = [fam("fam_round", 40, 1500), fam("fam_round_exh8", 12, 60), fam("fam_access", 20, 300)]
 PROPS["C08"]["families"] = [GENERAL_S, fam("fam_access", 60, 1500), fam("fam_wo_twins", 48, 1200)]
 PROPS["C09"]["families"] = [GENERAL_S, fam("fam_flags", 40, 1000), fam("fam_implicit", 24, 400), fam("fam_samename", 12, 144)]
 PROPS["C10"]["families"] = [GENERAL_S, fam("fam_codes", 40, 1000), fam("fam_extcmd", 16, 300)]
-PROPS["C11"]["families"] = [GENERAL_S, fam("fam_sched", 48, 1200), fam("fam_hold", 24, 400), fam("fam_extcmd", 12, 200)]
+PROPS["C11"]["families"] = [GENERAL_S, fam("fam_sched", 48, 1200), fam("fam_hold", 24, 400), fam("fam_extcmd", 12, 200), fam("fam_geom", 12, 60)]
 PROPS["C12"]["families"] = [GENERAL_S, fam("fam_sched", 32, 800), fam("fam_conf", 48, 1200)]
 PROPS["C13"]["families"] = [GENERAL_S, fam("fam_ring", 24, 400), fam("fam_quiesce", 10, 200), fam("fam_extcmd", 16, 300)]
 PROPS["C14"]["families"] = [GENERAL_S, fam("fam_hold", 40, 800)]
